@@ -122,6 +122,9 @@ def _strategy():
     @st.composite
     def cases(draw):
         s = draw(G.schema_strategy())
+        if draw(st.integers(0, 4)) == 0:
+            # declarations tied by weak dependencies: the printed SDL has to be orderable again
+            G.add_weak_family(s, draw)
         texts = [G.render(s)]
         how = 'direct'
         if draw(st.integers(0, 2)) == 0:
